@@ -143,7 +143,12 @@ namespace {
 
     std::vector<FCall> fcalls;
     std::vector<CCall> ccalls;
-    const auto f = [&fn, &fcalls](const double x) {
+    // a solver which ignores its iteration budget never returns: the function gives up far beyond the
+    // documented budget (3 + 2 im evaluations) so that the loss of the budget is reported, not a hang
+    struct BudgetIgnored {};
+    const std::size_t fmax = 64 + 8 * static_cast<std::size_t>(std::max<long>(static_cast<long>(im), 0));
+    const auto f = [&fn, &fcalls, fmax](const double x) {
+      if (fcalls.size() >= fmax) throw BudgetIgnored{};
       const auto v = fn.eval(x);
       fcalls.push_back({x, v.first, v.second});
       return std::make_tuple(v.first, v.second);
@@ -166,7 +171,13 @@ namespace {
     prm.im = im;
     prm.xmin0 = lo;
     prm.xmax0 = hi;
-    const auto res = tfel::math::scalarNewtonRaphson(f, crit, prm);
+    std::tuple<bool, double, Index> res{false, x0, Index{}};
+    bool runaway = false;
+    try {
+      res = tfel::math::scalarNewtonRaphson(f, crit, prm);
+    } catch (BudgetIgnored&) {
+      runaway = true;
+    }
     const bool converged = std::get<0>(res);
     const double xr = std::get<1>(res);
     const long it = static_cast<long>(std::get<2>(res));
@@ -188,6 +199,9 @@ namespace {
       return os.str();
     };
     // ---- budget
+    c.check(!runaway, "C09.budget.function_calls",
+            "the solver was still evaluating the function after " + std::to_string(fcalls.size()) +
+                " calls for im=" + std::to_string(imx) + " (stopped by the harness); " + hist());
     c.check(it >= 0 && it <= imx, "C09.budget.iterations",
             "returned iteration count " + std::to_string(it) + " outside [0,im]; " + hist());
     c.check(static_cast<long>(ccalls.size()) <= imx, "C09.budget.criterion_calls",
